@@ -29,6 +29,40 @@ def main():
         print(json.dumps([one(c) for c in calls]))
         return
     sys.setswitchinterval(1e-6)
+    if job.get('same'):
+        # every call is made by ALL threads at the same moment (first-seen races on anything keyed by the input)
+        # thread 0 starts at once, the others after a random delay of at most about one call (calibrated spin loop),
+        # so that some thread arrives while another is in the middle of the same call
+        import random
+        import time
+        per = [[None] * n for _ in calls]
+        barrier = threading.Barrier(n)
+
+        def spin(m):
+            x = 0
+            for i in range(m):
+                x += i
+            return x
+        t0 = time.perf_counter(); spin(200000); t_spin = (time.perf_counter() - t0) / 200000
+        kek = "C1=CC=CC=C1." * 20 + "C"
+        sf.encoder(kek)
+        t0 = time.perf_counter(); sf.encoder(kek); t_char = (time.perf_counter() - t0) / len(kek)
+        sys.setswitchinterval(1e-6)
+
+        def w2(k):
+            rng = random.Random(1000 * job.get('seed', 0) + k)
+            for i, c in enumerate(calls):
+                delay = 0 if k == 0 else int(rng.uniform(0, 1.2) * t_char * len(c[1]) / t_spin)
+                barrier.wait()
+                spin(delay)
+                per[i][k] = one(c)
+        ths = [threading.Thread(target=w2, args=(k,)) for k in range(n)]
+        for t in ths:
+            t.start()
+        for t in ths:
+            t.join()
+        print(json.dumps({'per_thread': per}))
+        return
     results = [None] * len(calls)
     bad = []
     barrier = threading.Barrier(n)
